@@ -4,6 +4,8 @@ import (
 	"bytes"
 	"encoding/json"
 	"fmt"
+	"math/big"
+	"net"
 	"reflect"
 	"sort"
 	"strings"
@@ -58,6 +60,11 @@ func (p Person) Fail() (string, error) {
 
 // PtrLen has a pointer receiver.
 func (p *Person) PtrLen() int { return len(p.Tags) }
+
+// Slug implements encoding.TextMarshaler.
+type Slug string
+
+func (s Slug) MarshalText() ([]byte, error) { return []byte("slug:" + string(s)), nil }
 
 // Page has its include-naming fields promoted from an embedded struct.
 type PageMeta struct {
@@ -180,6 +187,14 @@ func (v *LV) Build(r *Rng) any {
 			return recB(v.S, "other-"+v.S)
 		}
 		return recA(v.S, "other-"+v.S)
+	case "tm": // values that implement encoding.TextMarshaler
+		switch v.R {
+		case "ip":
+			return net.IP{192, 168, byte(v.I), 1}
+		case "big":
+			return big.NewInt(v.I * 1000003)
+		}
+		return Slug(v.S)
 	case "jnum":
 		return json.Number(v.S)
 	case "buf": // an io.WriterTo-valued binding
@@ -381,6 +396,9 @@ func genScalar1(r *Rng) *LV {
 	case 6:
 		if r.Chance(0.4) {
 			return &LV{T: "buf", S: pick(r, []string{"ab", "buffered text", ""})}
+		}
+		if r.Chance(0.5) {
+			return &LV{T: "tm", R: pick(r, []string{"ip", "slug", "slug", "big"}), S: pick(r, []string{"", "a-b", "x"}), I: int64(r.Range(0, 9))}
 		}
 		return &LV{T: "jnum", S: pick(r, []string{"12", "3.5", "-7", "1e3", "0"})}
 	case 7:
@@ -617,6 +635,9 @@ func stripPtr(v *LV) {
 	}
 	if v.T == "buf" { // *bytes.Buffer is a pointer
 		v.T = "str"
+	}
+	if v.T == "tm" && v.R == "big" { // *big.Int is a pointer
+		v.R = "slug"
 	}
 	if v.T == "tnil" {
 		v.T, v.R = "nil", ""
